@@ -53,6 +53,8 @@ class GenCtx:
 
     def child(self, **kw):
         g = GenCtx(self.frag, self.depth - 1, self.tail, self.ints, self.params, self.bit, self.ctxfree, self.names)
+        g.scope_depth = self.scope_depth
+        g.rootrefs = self.rootrefs
         for k, v in kw.items():
             setattr(g, k, v)
         return g
@@ -63,6 +65,9 @@ class GenCtx:
 
     parent_name = None      # name under which the struct being generated is nested (for same-name nesting)
     used_names = None
+    scope_depth = 0         # number of Struct scopes entered (1 = members of the outermost Struct)
+    rootrefs = False        # spell references to members of the outermost Struct as this._root.x now and then
+                            # (only sound when the generated spec is used as the outermost construct)
 
     def has(self, k):
         return k in self.frag
@@ -124,6 +129,8 @@ def gen_len_expr(draw, g, allow_const=True):
     else:
         levels, name, _ = draw(st.sampled_from(g.ints))
         base = ref_ast(levels, name, draw(st.sampled_from(["attr", "item"])))
+        if g.rootrefs and g.scope_depth and g.scope_depth - levels == 1 and draw(st.integers(0, 1)) == 0:
+            base = ["this", ["_root", name], draw(st.sampled_from(["attr", "item"]))]     # member of the outermost Struct
     form = draw(st.sampled_from(["id", "id", "id", "+k", "*k", "k+", "-k"]))
     if form == "+k":
         return ["bin", "+", base, ["const", draw(st.integers(0, 2))]]
@@ -245,7 +252,14 @@ def gen_tail_leaf(draw, g):
         key = draw(st.one_of(st.integers(0, 255), st.binary(min_size=1, max_size=3)))
         return ["xor", key, gen_spec(draw, g.child(tail=True, depth=min(g.depth - 1, 1)))]
     if o == "rol":
-        return ["rol", draw(st.integers(-9, 17)), 1, gen_spec(draw, g.child(tail=True, depth=min(g.depth - 1, 1)))]
+        group = draw(st.sampled_from([1, 1, 2, 3, 4, 5]))
+        if group == 1:
+            return ["rol", draw(st.integers(-9, 17)), 1, gen_spec(draw, g.child(tail=True, depth=min(g.depth - 1, 1)))]
+        # the rotated data must be whole groups: a fixed array of group*k bytes or greedy bytes drawn in whole groups
+        amount = draw(st.one_of(st.integers(-40, 40), st.sampled_from([8, 16, 24, -8, -16, 32])))
+        inner = draw(st.sampled_from([["gbytes"], ["array", group * draw(st.integers(0, 2)), ["int", 1, False, "b", "alias"]],
+                                      ["array", draw(st.integers(0, 2)), ["int", group, False, draw(st.sampled_from(["b", "l"])), "bi"]]]))
+        return ["rol", amount, group, inner]
     if o == "compressed":
         return ["compressed", ["gbytes"], draw(st.sampled_from(["zlib", "bzip2", "lzma"])), draw(st.sampled_from([None, 1, 9]))]
     if o == "terminated":
@@ -292,6 +306,8 @@ def gen_struct(draw, g, min1=False):
     inner = GenCtx(g.frag, g.depth, False, [(l + 1, n, k) for l, n, k in g.ints], g.params, g.bit, g.ctxfree, g.names)
     inner.parent_name = g.parent_name
     inner.used_names = set()
+    inner.scope_depth = g.scope_depth + 1
+    inner.rootrefs = g.rootrefs
     for gi in range(ngroups):
         last = gi == ngroups - 1
         inner.tail = g.tail and last
@@ -449,7 +465,7 @@ def _all_exprs(spec):
 def _mentions(e, lvl, name):
     k = e[0]
     if k == "this":
-        return e[1] == ["_"] * lvl + [name]
+        return e[1] == ["_"] * lvl + [name] or e[1] == ["_root", name]
     if k in ("const", "obj"):
         return False
     if k == "bin":
@@ -614,12 +630,13 @@ def gen_spec(draw, g):
 
 
 @st.composite
-def spec_and_params(draw, frag=SEQUENTIAL, depth=3, tail=True, with_params=True):
+def spec_and_params(draw, frag=SEQUENTIAL, depth=3, tail=True, with_params=True, rootrefs=False):
     params = {}
     if with_params and draw(st.booleans()):
         for name in draw(st.lists(st.sampled_from(["k", "m", "w"]), max_size=2, unique=True)):
             params[name] = draw(st.integers(0, 5))
     g = GenCtx(frag, depth, tail, [], params)
+    g.rootrefs = rootrefs
     o = draw(st.sampled_from(["struct", "struct", "any"]))
     spec = gen_struct(draw, g) if o == "struct" else gen_spec(draw, g)
     return spec, params
@@ -849,7 +866,7 @@ def gen_value(draw, spec, sc, vp=None):
     if k == "xor":
         return V(draw, spec[2], sc, VP())
     if k == "rol":
-        return V(draw, spec[3], sc, VP())
+        return V(draw, spec[3], sc, VP(unit=spec[2] if isinstance(spec[2], int) else 1))
     if k == "compressed":
         return V(draw, spec[1], sc, VP())
     raise ValueError("gen_value: unknown kind %r" % k)
@@ -978,9 +995,9 @@ def _gen_struct_value(draw, members, sc, vp):
 
 
 @st.composite
-def cases(draw, frag=SEQUENTIAL, depth=3, tail=True, with_params=True):
+def cases(draw, frag=SEQUENTIAL, depth=3, tail=True, with_params=True, rootrefs=False):
     """(spec, params, value)"""
-    spec, params = draw(spec_and_params(frag, depth, tail, with_params))
+    spec, params = draw(spec_and_params(frag, depth, tail, with_params, rootrefs))
     sc = top_scope(params, "build")
     value = gen_value(draw, spec, sc)
     return spec, params, value
